@@ -109,13 +109,13 @@ func (srv *Session) consumeSingleCommand(ctx context.Context, reader *buffer.Rea
 		return nil
 	}
 
-	if srv.closing.Load() {
+	// NOTE: we increase the wait group by one in order to make sure that idle
+	// connections are not blocking a close. No new commands are started once
+	// the server is closing.
+	if !srv.admit() {
 		return nil
 	}
 
-	// NOTE: we increase the wait group by one in order to make sure that idle
-	// connections are not blocking a close.
-	srv.wg.Add(1)
 	srv.logger.Debug("<- incoming command", slog.Int("length", length), slog.String("type", t.String()))
 	err = srv.handleCommand(ctx, conn, t, reader, writer)
 	srv.wg.Done()
